@@ -176,6 +176,13 @@ def check_bep(case, ctx):
     # BEP adds no entropy of its own: S(TS) = S(reactants); G = H - TS
     ctx.close('C09.bep/S=S_reactants', bep.get_SoR(reaction=rxn, **kw), rxn.get_SoR_state(state='reactants', **kw),
               rtol=1e-12)
+    # the entropy option: None switches the entropy off, 'products' borrows it from the products
+    if bep.get_SoR(reaction=rxn, entropy_state=None, **kw) != 0:
+        ctx.fail('C09.bep/entropy_state-None', repr(bep.get_SoR(reaction=rxn, entropy_state=None, **kw)))
+    ctx.close('C09.bep/entropy_state-products', bep.get_SoR(reaction=rxn, entropy_state='products', **kw),
+              rxn.get_SoR_state(state='products', **kw), rtol=1e-12)
+    ctx.close('C09.bep/G(entropy_state=None)=H', bep.get_GoRT(reaction=rxn, entropy_state=None, **kw),
+              bep.get_HoRT(reaction=rxn, **kw), rtol=1e-12, atol=1e-12 * scale / RT)
     ctx.close('C09.bep/G=H-TS', bep.get_GoRT(reaction=rxn, **kw),
               bep.get_HoRT(reaction=rxn, **kw) - bep.get_SoR(reaction=rxn, **kw), rtol=1e-12,
               atol=1e-12 * scale / RT)
